@@ -12,7 +12,8 @@ const (
 	tIfaceBase = 16 // 16..19: I0..I3
 	tBundle    = 20 // VB: a plain struct of two carriers
 	tAny       = 21 // interface{}: any value is assignable to it, so a mixed-up key is delivered silently
-	nTypes     = 22
+	tSliceV    = 22 // VS: a named type of slice kind; its nil value is a legitimate (token-less) group member
+	nTypes     = 23
 )
 
 var typeTab [nTypes]reflect.Type
@@ -30,6 +31,7 @@ func init() {
 	typeTab[19] = reflect.TypeOf((*I3)(nil)).Elem()
 	typeTab[tBundle] = reflect.TypeOf(VB{})
 	typeTab[tAny] = reflect.TypeOf((*interface{})(nil)).Elem()
+	typeTab[tSliceV] = reflect.TypeOf(VS{})
 	for i := range typeTab {
 		typeName[i] = typeTab[i].String()
 	}
@@ -49,6 +51,10 @@ func implements(t, iface int) bool { return typeTab[t].Implements(typeTab[iface]
 func mkVal(t int, tok *Tok) reflect.Value {
 	rt := typeTab[t]
 	switch {
+	case t == tSliceV:
+		v := reflect.MakeSlice(rt, 1, 1)
+		v.Index(0).Set(mkVal(0, tok))
+		return v
 	case t == tBundle:
 		v := reflect.New(rt).Elem()
 		v.Field(0).Set(mkVal(4, tok))
@@ -84,6 +90,12 @@ func tokOf(v reflect.Value) *Tok {
 			return nil
 		}
 		v = v.Elem()
+	}
+	if v.Kind() == reflect.Slice && v.Type() == typeTab[tSliceV] {
+		if v.Len() == 0 {
+			return nil
+		}
+		return tokOf(v.Index(0))
 	}
 	if v.Kind() == reflect.Slice || v.Kind() == reflect.Map || v.Kind() == reflect.Func || v.Kind() == reflect.Chan {
 		// something that is no value of the universe at all (e.g. a whole slice delivered where one
